@@ -112,6 +112,39 @@ example : ∃ c s, Reachable c s ∧ Terminal c s :=
     rintro ⟨s', h⟩
     cases h <;> simp_all [PState.init]⟩
 
+/-- the intended final states are maximal: main loop through (or stopped), every enqueued task done -/
+theorem terminal_of_done (c : Ctx) (s : PState) (hr : Reachable c s)
+    (hq : s.enq = c.txs.length ∨ s.stopped = true)
+    (hd : ∀ i, i < s.enq → s.st i = .done) : Terminal c s := by
+  have hi : ∀ i, s.enq ≤ i → s.st i = .idle := by
+    intro i hle
+    apply Classical.byContradiction
+    intro hn
+    have := (inv_reachable hr).started i hn
+    omega
+  have hne : ∀ i x, s.st i = x → x ≠ .done → x ≠ .idle → False := by
+    intro i x hx h1 h2
+    by_cases h : i < s.enq
+    · exact h1 (by rw [← hx, hd i h])
+    · exact h2 (by rw [← hx, hi i (by omega)])
+  rintro ⟨s', h⟩
+  cases h with
+  | enqueueOk hst ht _ =>
+    rcases hq with hq | hq
+    · have := (List.getElem?_eq_some_iff.mp ht).1; omega
+    · rw [hst] at hq; cases hq
+  | enqueueFail hst ht _ =>
+    rcases hq with hq | hq
+    · have := (List.getElem?_eq_some_iff.mp ht).1; omega
+    · rw [hst] at hq; cases hq
+  | start hlt hidle _ _ _ => rw [hd _ hlt] at hidle; cases hidle
+  | skip hlt hidle _ _ => rw [hd _ hlt] at hidle; cases hidle
+  | stepCont hr _ _ => exact hne _ _ hr (by intro h; cases h) (by intro h; cases h)
+  | stepFail hr _ _ => exact hne _ _ hr (by intro h; cases h) (by intro h; cases h)
+  | stepAbort hr _ _ => exact hne _ _ hr (by intro h; cases h) (by intro h; cases h)
+  | commit hr _ => exact hne _ _ hr (by intro h; cases h) (by intro h; cases h)
+  | finish hr => exact hne _ _ hr (by intro h; cases h) (by intro h; cases h)
+
 def exTx (id : Nat) (keys : List (Key × Perm)) (acts : List (List Op)) : Tx :=
   { id := id, keys := (9, 5) :: keys, sponsor := 9, units := [2], preOk := true, actions := acts }
 
